@@ -118,6 +118,9 @@ def fresh_items():
 def replay(case):
     if case.get("kind") == "fresh":
         return freshcmp.replay(case)
+    if case.get("kind") == "toy-reload":
+        from vf.checks import toyreload
+        return toyreload.replay(case, ("execution-after-reload",))
     data = {int(k): v for k, v in case["data"].items()}
     _r, bad = compare_run(case["words"], data, case["accu"], case["steps"], case.get("light", False), case.get("drive", "step"))
     return [(dict(oracle="toy-reference", field=f), f"[{'; '.join(text(w) for w in case['words'][:8])}] accu={case['accu']}: {d}") for f, d in bad]
@@ -225,4 +228,6 @@ def run(ctx):
     ctx.space("run-history-fresh-interpreters", part, t0, programs=len(FRESH_TEXTS), preludes=4,
               note="each scenario runs in its own interpreter; compared with the same program run in a pristine interpreter")
     ctx.require("fresh-interpreter-differential")
+    from vf.checks import toyreload
+    toyreload.run_part(ctx, ("execution-after-reload",))
     ctx.require("self-modify", "taken", "branch-out", "pc-wrap", "horizon", "driven-by-single", "driven-by-halves", "driven-by-beside")
